@@ -178,6 +178,28 @@ CHECKS = {
         note="Floats finite (the literal syntax has no inf/nan); zerocoded bodies above the decoder's cap out of domain; packet id, acks and extra are comments in the format "
              "and copied before comparison; [[NAME]] replacement lookups count as caller data; each-choice values in multi-variable messages; open known finding: a "
              "Variable block with count 0 has no text form."),
+    "C15": dict(
+        category="fault_enumeration", design_ref="DESIGN.md §4 C15",
+        technique="bounded exhaustive fault-placement enumeration (flows x single faults x addon behaviours, all fault pairs, all behaviour pairs) through the real "
+                  "pump_proxy_event with the real SLMITMAddon on the other end of deterministic in-memory queues",
+        text="231 flows (request/response x 11 cap kinds x plain/injected/browser x empty/valid/malformed body) x 11 single faults x 13 addon behaviours, then all fault "
+             "pairs and all addon1 x addon2 behaviour pairs, through the real MITMProxyEventManager.pump_proxy_event: the number of ('callback', id, state) items per flow "
+             "is checked against an ownership log (exactly one, immediately unless taken, else exactly at resume) and two later events of another flow are pumped. Every "
+             "get_state/from_state transfer (direct and pickled) over kinds x 2 sessions x 2 colliding regions x flags x modification subsets; every item sequence up to "
+             "length 3 (4 thorough) through the real IPCInterceptionAddon._pump_callbacks counting resume() calls.",
+        note="A taken, never-resumed flow stays with its taker; faults are Python exceptions at the listed points; pickling/OS-queue failure, a real mitmproxy master, TLS "
+             "and sockets are out of scope; mitmproxy.ctx.master stubbed for replay/shutdown; ownership is per flow (first successful take() until the one successful resume())."),
+    "C17": dict(
+        category="model_checking", design_ref="DESIGN.md §4 C17",
+        technique="explicit-state BFS of event-queue poll rounds through the real MITMProxyEventManager.pump_proxy_event (hmc.explore.bfs, canonical-state dedup, "
+                  "determinism rechecks) against a plain-Python reference model",
+        text="A poll round is {viewer ack current | repeated} x {simulator answers 1-2 events of 6 kinds, undef, 502/499/404} x {addon swallows none/first/all} x "
+             "{delivered | lost}, plus injections (inject_event, inject_message) and region teardown, driven through the real event manager, EventQueueManager, "
+             "register_region, LLSDMessageSerializer and SLMITMAddon hooks; the reference model predicts the exact body each poll must return and the region table "
+             "after it. Quick depth 4 / 3 deviations; thorough depth 6 (delivery) and depth 4 (region announcements).",
+        note="In-memory queues with pickle round trip, virtual loop, MockTransport; simulator ids strictly increase, events never re-sent, no empty event list, events "
+             "well-formed; a stale poll repeats the immediately preceding ack; no two simulators share a seed URL; teardown may drop pending injections; injected events "
+             "are only required to keep FIFO order among themselves; the wake-up PlacesQuery is observed, not demanded."),
 }
 
 PENDING_REASON = "check not built yet (build in progress; will be claimed once its harness exists)"
